@@ -130,3 +130,80 @@ pub proof fn lemma_adjust_witness()
 }
 /// index of the stretch a hand-advanced iterator delivered last
 pub open spec fn cidx(all: Seq<Range>, rest: Seq<Range>) -> int { all.len() - rest.len() - 1 }
+pub open spec fn distinct_keys(ts: Seq<RawToken>, kf: spec_fn(RawToken) -> (u32, u32)) -> bool {
+    forall|i: int, j: int| 0 <= i < j < ts.len() ==> kf(#[trigger] ts[i]) != kf(#[trigger] ts[j])
+}
+//@ lemma_two_occurrences [C10]
+pub proof fn lemma_two_occurrences<T>(s: Seq<T>, x: T)
+    requires s.to_multiset().count(x) >= 2
+    ensures exists|p: int, q: int| 0 <= p < q < s.len() && s[p] == x && s[q] == x
+{
+    broadcast use vstd::seq_lib::group_to_multiset_ensures;
+    assert(s.contains(x));
+    let p = choose|p: int| 0 <= p < s.len() && s[p] == x;
+    let r = s.remove(p);
+    assert(r.to_multiset() =~= s.to_multiset().remove(x));
+    assert(r.to_multiset().count(x) >= 1);
+    assert(r.contains(x));
+    let q0 = choose|q0: int| 0 <= q0 < r.len() && r[q0] == x;
+    let q = if q0 < p { q0 } else { q0 + 1 };
+    assert(s[q] == x);
+    if q < p { assert(0 <= q < p < s.len() && s[q] == x && s[p] == x); } else { assert(0 <= p < q < s.len() && s[p] == x && s[q] == x); }
+}
+//@ lemma_permutation_keeps_keys_distinct [C10]
+pub proof fn lemma_permutation_keeps_keys_distinct(vals: Seq<RawToken>, toks: Seq<RawToken>, kf: spec_fn(RawToken) -> (u32, u32))
+    requires vals.to_multiset() == toks.to_multiset(), distinct_keys(toks, kf)
+    ensures distinct_keys(vals, kf)
+{
+    broadcast use vstd::seq_lib::group_to_multiset_ensures;
+    assert forall|i: int, j: int| 0 <= i < j < vals.len() implies kf(#[trigger] vals[i]) != kf(#[trigger] vals[j]) by {
+        let x = vals[i]; let y = vals[j];
+        vals.to_multiset_ensures(); toks.to_multiset_ensures();
+        assert(vals.contains(x) && vals.contains(y));
+        assert(vals.to_multiset().count(x) > 0 && vals.to_multiset().count(y) > 0);
+        if kf(x) == kf(y) {
+            if x == y {
+                let r = vals.remove(i);
+                assert(r.to_multiset() =~= vals.to_multiset().remove(x));
+                assert(r[j - 1] == y);
+                assert(r.contains(y));
+                r.to_multiset_ensures();
+                assert(r.to_multiset().count(x) >= 1);
+                assert(vals.to_multiset().count(x) >= 2);
+                lemma_two_occurrences(toks, x);
+            } else {
+                assert(toks.contains(x) && toks.contains(y));
+                let p = choose|p: int| 0 <= p < toks.len() && toks[p] == x;
+                let q = choose|q: int| 0 <= q < toks.len() && toks[q] == y;
+                if p < q { assert(kf(toks[p]) != kf(toks[q])); } else { assert(kf(toks[q]) != kf(toks[p])); }
+            }
+        }
+    }
+}
+//@ lemma_distinct_positions_give_nonempty_stretches [C10]
+/// distinct positions (and no column u32::MAX) make every stretch non-empty
+pub proof fn lemma_distinct_positions_give_nonempty_stretches(rs: Seq<Range>, toks: Seq<RawToken>, kf: spec_fn(RawToken) -> (u32, u32))
+    requires stretch_post(rs, toks, kf), distinct_keys(toks, kf), forall|i: int| 0 <= i < toks.len() ==> kf(#[trigger] toks[i]).1 < u32::MAX
+    ensures all_nonempty(rs)
+{
+    broadcast use vstd::seq_lib::group_to_multiset_ensures;
+    lemma_tuple_ord_laws();
+    let vals = range_values(rs);
+    lemma_permutation_keeps_keys_distinct(vals, toks, kf);
+    assert forall|i: int| 0 <= i < rs.len() implies tlt(#[trigger] rs[i].start, rs[i].end) by {
+        assert(stretch_ok(rs, vals, kf, i));
+        assert(vals.contains(vals[i]));
+        vals.to_multiset_ensures(); toks.to_multiset_ensures();
+        assert(vals.to_multiset().count(vals[i]) > 0);
+        assert(toks.contains(vals[i]));
+        if i + 1 < rs.len() { assert(le(kf(vals[i]), kf(vals[i + 1]))); assert(kf(vals[i]) != kf(vals[i + 1])); }
+    }
+}
+
+
+/// C10's statement for maps without coinciding positions: exactly one composed token per non-empty overlap
+pub open spec fn adjust_post_strict(old_tokens: Seq<RawToken>, adj_tokens: Seq<RawToken>, out: Seq<RawToken>) -> bool {
+    exists|os: Seq<Range>, ads: Seq<Range>| #![trigger rows(os, ads, ads.len() as int)]
+        stretch_post(os, old_tokens, |t: RawToken| dkey(t)) && stretch_post(ads, adj_tokens, |t: RawToken| skey(t))
+        && out.to_multiset() == rows(os, ads, ads.len() as int).to_multiset()
+}
